@@ -211,7 +211,7 @@ ASSUMPTIONS = {
     "R-CONSTSRC.ir": ["pointer derivation in the IR is a closure over GEP / cast / phi / select / returned pointers after SROA; pointers loaded "
                       "from memory are not followed (the mpz layer's PTR (u) is covered by aliasflow's R-CONSTSRC)",
                       "external callees (assembly kernels, libc) write exactly through the parameters their C prototypes declare pointer to non-const "
-                      "(register discipline of the kernels is R-ABI's subject; their memory footprint is taken from the prototypes)",
+                      "(for the kernels R-ABI checks that no store address derives only from pointer-to-const arguments)",
                       "pointers handed to indirect calls are counted as undecided"],
     "R-EXTENT.tmp": ["a scratch block holds exactly the limbs requested; TMP_ALLOC in a loop reuses one region name (sizes of different iterations are not "
                      "told apart)", "write extents of mpn callees from the MPN_EXTENTS table (manual); inline MPN_ZERO / MPN_COPY_INCR / MPN_COPY_DECR "
